@@ -17,7 +17,9 @@ CLAIM = dict(
           "the cores it reported full is exactly the inserted set (subtree_insert). For every history on ONE tree object - "
           "add_core calls interleaved with any number of read-outs get_regions_and_coremasks() at any points - every "
           "read-out selects exactly the cores added before it, each once, and the final tree is the tree built from the "
-          "added cores (history_reads_exact, history_read_at). The executable oracle the driver runs on the "
+          "added cores (history_reads_exact, history_read_at); without any hypothesis: an add_core outside the range "
+          "raises ValueError and leaves the tree as it was, the object stays usable and every read-out selects exactly "
+          "the in-range cores added so far (history_faults_exact, history_read_at_any). The executable oracle the driver runs on the "
           "implementation's own output is proved to decide exactly these predicates for all inputs (exactB_iff, "
           "nodupB_iff, strictB_iff). The word semantics is proved identical to the one C09's machine model uses "
           "(c09_selects_agree) and the output is proved to meet the contract C09's load theorems assume of "
@@ -43,14 +45,38 @@ CLAIM = dict(
           "region word as documented. Insertion order (dict/set iteration) is an explicit input of the model and "
           "universally quantified in the theorems. Out-of-range coordinates/cores raise ValueError in code and model. "
           "regions.py has no public function besides get_region_for_chip, compress_flood_fill_regions and "
-          "RegionCoreTree (__init__, add_core, get_regions_and_coremasks); all are modelled and compared."),
+          "RegionCoreTree (__init__, add_core, get_regions_and_coremasks); all are modelled and compared."
+          " Streams and what each validates (all verdicts from the Lean oracle / model comparison): [compress] single "
+          "calls, 30% with other legal argument kinds (ints as bool / IntEnum / numpy.int64; core collections as set, "
+          "frozenset, list, tuple, list with a repeated core, range, dict keys view, generator, one-shot iterator, mixed; "
+          "dict / OrderedDict / defaultdict / dict subclass; tuple or namedtuple keys; keyword call) and malformed "
+          "targets incl. +-2**31..2**100 (ValueError, model comparison only); [region] get_region_for_chip with level "
+          "omitted / positional / keyword / all-keyword, int kinds, coordinates and levels beyond the machine up to "
+          "2**100 (no range check in the code: model comparison only, the single-chip oracle only for chips < 256); "
+          "[subtree], [history], [gens] RegionCoreTree(base_x, base_y, level) positional / keyword / partial keyword, "
+          "instances of a subclass, keyword add_core, int kinds; histories go on after a failed add_core; [calls] one "
+          "process, dictionaries and sets edited in place, twins (equal in all but one core / chip) in both orders, a "
+          "failing request then repaired, the returned list edited in place, every returned list kept and re-read after "
+          "every later call; [fills] the real controller: buffer size 64/128/256, both version-string styles, two "
+          "sdram/vcpu bases, the same dictionary object passed again after in-place edits, a binary that cannot be opened "
+          "and the controller used on, retries of load_application; [scale] every second chip of 64 x 64 (quick) and of "
+          "the whole machine with two core sets / all 18 cores, the whole machine with two cores, a 4096-add history "
+          "(thorough). Every SEQ case starts from re-executed rig modules (importlib.reload) so a replay reproduces; every "
+          "implementation call runs under a CPU limit ~100x its normal time (did-not-return). Not applicable: byte "
+          "strings, hashable identifiers, rig's own classes as arguments (the API takes ints and one dict); narrow numpy "
+          "integer types (numpy.uint8 coordinates lose block bits in `1 << subregion`: not `int`s in the documented "
+          "sense, reported); negative levels / levels > 3 as numpy ints (numpy shifts do not raise); recursion depth is "
+          "fixed at 4 and nothing is counted in 8 or 16 bits besides the 16 block bits and 18 core bits, both exhausted; "
+          "regions.py talks to nothing that can fail other than raising ValueError (covered); connection / machine "
+          "faults under flood_fill_aplx belong to C07 / C09; regions.py has no configuration (the controller's is varied "
+          "only to show the region list does not depend on it); app_start_delay stays 0.0 (a sleep)."),
     technique="Lean 4 theorems over a hand-written model + differential correspondence + Lean spec as oracle")
 
 THEOREMS = ["region_word_selects", "single_chip", "add_inv", "insert_all", "compress_ok", "compress_err",
             "compress_exact", "exact_select_iff", "compress_sorted", "compress_keys", "chipsOf_spec",
             "exactB_iff", "nodupB_iff", "strictB_iff", "oracle_decides",
             "c09_selects_agree", "c09_selectsCore_agree", "c09_strictlyIncreasing_agree",
-            "c09_regions_contract", "c09_compressOK", "subtree_insert", "emit_not_sorted", "history_reads_exact", "history_read_at"]
+            "c09_regions_contract", "c09_compressOK", "subtree_insert", "emit_not_sorted", "history_reads_exact", "history_read_at", "history_faults_exact", "history_read_at_any"]
 THEOREMS += ['gen_get_region_for_chip']   # translator tie: generated function bodies = model (Props/C12Gen.lean)
 
 RULE = ("target sets built from shapes: sparse points (whole grid or a small window), aligned full blocks of side "
@@ -72,7 +98,11 @@ RULE = ("target sets built from shapes: sparse points (whole grid or a small win
         "window, scattered over level boundaries, or a full 4 x 4 block): 2-6 steps flood_fill_aplx(path, targets) / "
         "flood_fill_aplx({path: targets, ...}) / load_application with chips that miss some fills (retries), the next "
         "request for a binary being the same chips with other cores, a part, a superset, the same again, or fresh, "
-        "the same or another binary; replays carry the whole history. A case is non-trivial when the output contains a "
+        "the same or another binary, the same dictionary object edited in place, a binary that cannot be opened; "
+        "options drawn per case: argument kinds (ints, core collections, dictionary and key types), calling conventions, "
+        "constructor forms, subclass instances, failing calls followed by further use, twins in both orders, edits of "
+        "returned lists, controller configuration; a handful of cases far beyond the usual size; replays carry the "
+        "whole history and start from reloaded rig modules. A case is non-trivial when the output contains a "
         "region word of level < 3 (at least one collapse of sixteen children) or >= 2 pairs, for a directly constructed "
         "tree when some add_core returned True, for a history when an add lies between two read-outs, for a call "
         "sequence when a dictionary is passed again after an in-place change of a core set, for lazy read-outs when a "
@@ -168,13 +198,22 @@ def gen_case(rng, tier_big):
     if rng.random() < 0.35:
         for _ in range(rng.choice([1, 1, 2, 3])):
             shapes = shapes + one()
-    return {"kind": "compress", "shapes": shapes, "order": rng.randrange(1 << 30)}
+    c = {"kind": "compress", "shapes": shapes, "order": rng.randrange(1 << 30)}
+    if rng.random() < 0.3:
+        c["args"] = gen_args(rng)       # other legal kinds of ints / collections / dictionaries, keyword call
+    return c
+
+
+BIG = [2 ** 31, 2 ** 32, 2 ** 53 + 1, 2 ** 63, 2 ** 64, 2 ** 100]
 
 
 def gen_malformed(rng):
     c = gen_case(rng, False)
     bad = rng.choice([[-1, 3, 2], [256, 0, 0], [3, -1, 1], [0, 256, 17], [4, 4, 18], [4, 4, -1],
                       [300, 300, 30], [255, 255, 18], [256, 256, 0]])
+    if rng.random() < 0.25:
+        bad = [3, 4, 5]
+        bad[rng.randrange(3)] = rng.choice(BIG + [-v for v in BIG])
     c["shapes"] = c["shapes"][:rng.randrange(1, 4)] + [["pt"] + bad]
     if rng.random() < 0.3:
         c["shapes"] = [["pt"] + bad]
@@ -213,7 +252,11 @@ def gen_subtree(rng):
         bad = rng.choice([[bx - 1, by, 0], [bx + scale, by, 1], [bx, by + scale, 2], [bx, by - 1, 17],
                           [bx, by, 18], [bx, by, -1], [bx + scale - 1, by + scale, 3]])
         pts.insert(rng.randrange(len(pts) + 1), bad)
-    return {"kind": "subtree", "x": bx, "y": by, "level": level, "points": pts}
+    c = {"kind": "subtree", "x": bx, "y": by, "level": level, "points": pts}
+    if rng.random() < 0.4:
+        c["opts"] = {"ctor": rng.choice(["pos", "kw", "partial"]), "sub": rng.random() < 0.4,
+                     "ints": rng.choice(INT_KINDS), "conv": rng.choice(["pos", "kw"])}
+    return c
 
 
 def build_targets(case):
@@ -231,6 +274,13 @@ def build_targets(case):
             for x in range(x0, x0 + w):
                 for y in range(y0, y0 + h):
                     acc.setdefault((x, y), set()).update(cores)
+        elif s[0] == "checker":
+            _, x0, y0, w, h, even, odd = s
+            for x in range(x0, x0 + w):
+                for y in range(y0, y0 + h):
+                    cs = odd if (x + y) % 2 else even
+                    if cs:
+                        acc.setdefault((x, y), set()).update(cs)
         elif s[0] == "hole":
             _, x, y, cores = s
             if (x, y) in acc:
@@ -253,59 +303,198 @@ def build_targets(case):
 
 # ---------------------------------------------------------------- implementation side
 def dump_tree(t):
-    return {"x": t.base_x, "y": t.base_y, "level": t.level, "ls": list(t.locally_selected),
+    return {"x": int(t.base_x), "y": int(t.base_y), "level": int(t.level), "ls": [int(v) for v in t.locally_selected],
             "subs": [None if s is None else dump_tree(s) for s in getattr(t, "subregions", [])]}
 
 
-def impl_compress(targets):
-    from rig.machine_control import regions
+# ---- one call of the implementation: CPU limit, exceptions -> protocol
+_HANGS = [0]
+
+
+def guard(f, n=0):
+    """run `f` (one call, or one history of calls, of the implementation on about `n` cores) under a CPU limit of
+    ~100x its normal time (3 s + 0.3 ms per core; 0.5 s + 0.1 ms per core once 3 calls of this process did not
+    return).  Every function of the model is total (Lean), so a call that does not return is a finding."""
+    from harness import common
+    lim = (3 + 0.0003 * n) if _HANGS[0] < 3 else (0.5 + 0.0001 * n)
     try:
-        out = regions.compress_flood_fill_regions(targets)
+        with common.cpu_limit(lim):
+            return f()
+    except common.ImplHang as e:
+        _HANGS[0] += 1
+        return {"err": "DidNotReturn", "where": str(e)[:160]}
+    except ValueError:
+        return {"err": "ValueError"}
+    except (ImportError, SyntaxError):
+        raise
+    except Exception as e:  # noqa
+        return {"err": "Other " + type(e).__name__}
+
+
+# ---- argument kinds and calling conventions (all of them legal for the documented API)
+INT_KINDS = ("int", "bool", "enum", "numpy")
+CORE_KINDS = ("set", "frozenset", "list", "tuple", "duplist", "range", "keys", "gen", "iter", "mixed")
+DICT_KINDS = ("dict", "ordered", "default", "subclass")
+KEY_KINDS = ("tuple", "namedtuple")
+_ENUM = {}
+
+
+def conv_int(v, kind):
+    """the integer `v` as another kind of Python integer (bool only for 0/1; numpy only the default integer type:
+    the narrow numpy types have wrap-around shifts and are not `int`s in the documented sense)"""
+    if kind == "bool" and v in (0, 1):
+        return bool(v)
+    if kind == "enum":
+        if v not in _ENUM:
+            import enum
+            _ENUM[v] = enum.IntEnum("E%s" % str(v).replace("-", "m"), {"member": v}).member
+        return _ENUM[v]
+    if kind == "numpy" and -2 ** 62 < v < 2 ** 62:
+        import numpy
+        return numpy.int64(v)
+    return v
+
+
+def gen_args(rng):
+    return {"ints": rng.choice(INT_KINDS), "cores": rng.choice(CORE_KINDS), "dict": rng.choice(DICT_KINDS),
+            "key": rng.choice(KEY_KINDS), "conv": rng.choice(["pos", "kw"])}
+
+
+def dress(targets, args):
+    """the targets {(x, y): set(cores)} as the kinds of objects named by `args`; -> (object to pass, the (x, y, p)
+    sequence in the order the implementation will iterate it, as plain ints)"""
+    import collections
+    ik = args.get("ints", "int")
+    Chip = collections.namedtuple("Chip", "x y")
+    dk = args.get("dict", "dict")
+
+    class TargetsDict(dict):
+        pass
+    obj = {"dict": dict, "ordered": collections.OrderedDict, "default": lambda: collections.defaultdict(set),
+           "subclass": TargetsDict}[dk]()
+    order = []
+    kinds = [k for k in CORE_KINDS if k != "mixed"]
+    for i, ((x, y), cs) in enumerate(targets.items()):
+        key = (conv_int(x, ik), conv_int(y, ik))
+        if args.get("key") == "namedtuple":
+            key = Chip(*key)
+        lst = [conv_int(p, ik) for p in cs]
+        ck = args.get("cores", "set")
+        if ck == "mixed":
+            ck = kinds[i % len(kinds)]
+        if ck == "range" and lst and sorted(int(p) for p in lst) == list(range(min(int(p) for p in lst),
+                                                                            max(int(p) for p in lst) + 1)):
+            val = range(min(int(p) for p in lst), max(int(p) for p in lst) + 1)
+            seq = list(val)
+        elif ck == "set":
+            val = set()
+            for p in lst:
+                val.add(p)
+            seq = list(val)
+        elif ck == "frozenset":
+            val = frozenset(lst)
+            seq = list(val)
+        elif ck == "tuple":
+            val = seq = tuple(lst)
+        elif ck == "duplist":
+            val = seq = lst + lst[:1]
+        elif ck == "keys":
+            val = dict.fromkeys(lst).keys()
+            seq = list(val)
+        elif ck == "gen":
+            seq = list(lst)
+            val = (p for p in seq)          # one shot: the implementation may iterate it once
+        elif ck == "iter":
+            seq = list(lst)
+            val = iter(seq)
+        else:
+            val = seq = list(lst)
+        obj[key] = val
+        order += [[int(x), int(y), int(p)] for p in seq]
+    return obj, order
+
+
+def impl_compress(targets, args=None, n=None):
+    from rig.machine_control import regions
+    n = 18 * len(targets) if n is None else n
+
+    def run():
+        if args and args.get("conv") == "kw":
+            out = regions.compress_flood_fill_regions(targets=targets)
+        else:
+            out = regions.compress_flood_fill_regions(targets)
         return {"ok": [[int(r), int(m)] for (r, m) in out]}
-    except ValueError:
-        return {"err": "ValueError"}
-    except Exception as e:  # noqa
-        return {"err": "Other " + type(e).__name__}
+    return guard(run, n)
 
 
-def impl_tree(order):
+def new_tree(regions, bx, by, level, ctor="pos", sub=False, ik="int"):
+    """RegionCoreTree(base_x, base_y, level) in the calling conventions the signature allows; `sub`: an instance of
+    a subclass (children stay plain RegionCoreTree nodes)"""
+    cls = regions.RegionCoreTree
+    if sub:
+        class Tree(regions.RegionCoreTree):
+            note = "a caller's subclass"
+        cls = Tree
+    bx, by, level = conv_int(bx, ik), conv_int(by, ik), conv_int(level, ik)
+    if ctor == "kw":
+        return cls(level=level, base_y=by, base_x=bx)
+    if ctor == "partial":
+        kw = {k: v for k, v in (("base_x", bx), ("base_y", by), ("level", level)) if v != 0}
+        return cls(**kw)
+    return cls(bx, by, level)
+
+
+def add_core(t, x, y, p, conv="pos", ik="int"):
+    x, y, p = conv_int(x, ik), conv_int(y, ik), conv_int(p, ik)
+    return t.add_core(p=p, x=x, y=y) if conv == "kw" else t.add_core(x, y, p)
+
+
+def impl_tree(order, args=None):
     from rig.machine_control import regions
-    t = regions.RegionCoreTree()
-    rets = []
-    try:
+    args = args or {}
+
+    def run():
+        t = new_tree(regions, 0, 0, 0, "partial" if args.get("conv") == "kw" else "pos")
+        rets = []
         for (x, y, p) in order:
-            rets.append(bool(t.add_core(x, y, p)))
+            rets.append(bool(add_core(t, x, y, p, args.get("conv", "pos"), args.get("ints", "int"))))
         return {"ok": {"tree": dump_tree(t), "returns": rets,
                        "yield": [[int(r), int(m)] for (r, m) in t.get_regions_and_coremasks()]}}
-    except ValueError:
-        return {"err": "ValueError"}
-    except Exception as e:  # noqa
-        return {"err": "Other " + type(e).__name__}
+    return guard(run, len(order))
 
 
-def impl_subtree(bx, by, level, order):
+def impl_subtree(bx, by, level, order, opts=None):
     from rig.machine_control import regions
-    t = regions.RegionCoreTree(bx, by, level)
-    rets = []
-    try:
+    opts = opts or {}
+
+    def run():
+        t = new_tree(regions, bx, by, level, opts.get("ctor", "pos"), opts.get("sub", False), opts.get("ints", "int"))
+        rets = []
         for (x, y, p) in order:
-            rets.append(bool(t.add_core(x, y, p)))
+            rets.append(bool(add_core(t, x, y, p, opts.get("conv", "pos"), opts.get("ints", "int"))))
         return {"ok": {"tree": dump_tree(t), "returns": rets,
                        "yield": [[int(r), int(m)] for (r, m) in t.get_regions_and_coremasks()]}}
-    except ValueError:
-        return {"err": "ValueError"}
-    except Exception as e:  # noqa
-        return {"err": "Other " + type(e).__name__}
+    return guard(run, len(order))
 
 
-def impl_region(x, y, level):
+def impl_region(x, y, level, conv="pos", ik="int"):
     from rig.machine_control import regions
-    try:
-        return {"ok": int(regions.get_region_for_chip(x, y, level))}
-    except ValueError:
-        return {"err": "ValueError"}
-    except Exception as e:  # noqa
-        return {"err": "Other " + type(e).__name__}
+
+    if ik == "numpy" and not (0 <= level <= 3 and max(x, y) < 2 ** 31):
+        ik = "int"      # numpy shifts by a negative count do not raise: only the documented levels as numpy ints
+
+    def run():
+        a, b, l = conv_int(x, ik), conv_int(y, ik), conv_int(level, ik)
+        if conv == "default" and level == 3:
+            r = regions.get_region_for_chip(a, b)
+        elif conv == "kw":
+            r = regions.get_region_for_chip(a, b, level=l)
+        elif conv == "allkw":
+            r = regions.get_region_for_chip(level=l, y=b, x=a)
+        else:
+            r = regions.get_region_for_chip(a, b, l)
+        return {"ok": int(r)}
+    return guard(run)
 
 
 TREE_LIMIT = 2000
@@ -333,22 +522,25 @@ def queries(c, order):
     return qs
 
 
-def judge(ctx, points_list):
-    """oracle verdict keys for several explicit point lists (one driver call)."""
+def judge(ctx, points_list, args=None):
+    """oracle verdict keys for several explicit point lists (one driver call), passed in the argument kinds `args`."""
     reqs, outs = [], []
     for pts in points_list:
         targets = build_targets({"points": pts})
-        order = [[x, y, p] for (x, y), cs in targets.items() for p in cs]
-        r = impl_compress(targets)
+        if args:
+            targets, order = dress(targets, args)
+        else:
+            order = [[x, y, p] for (x, y), cs in targets.items() for p in cs]
+        r = impl_compress(targets, args, len(order))
         outs.append(r)
         if "ok" in r:
-            reqs.append({"suite": "c12", "op": "oracle", "targets": sorted(order), "out": r["ok"],
-                         "queries": queries({}, order)})
+            tg = [list(t) for t in sorted({tuple(t) for t in order})]
+            reqs.append({"suite": "c12", "op": "oracle", "targets": tg, "out": r["ok"], "queries": queries({}, tg)})
     reps = iter(ctx.lean(reqs))
     keys = []
     for r in outs:
         if "ok" not in r:
-            keys.append({"exception-on-valid-targets"})
+            keys.append({"did-not-return" if r["err"] == "DidNotReturn" else "exception-on-valid-targets"})
         else:
             o = next(reps)
             if not o["nodup"]:
@@ -361,8 +553,9 @@ def judge(ctx, points_list):
 def shrink(ctx, case, key):
     """greedy delta debugging on the explicit point list, keeping the same finding key."""
     targets = build_targets(case)
+    args = case.get("args")
     pts = [[x, y, p] for (x, y), cs in targets.items() for p in cs]
-    if key not in judge(ctx, [pts])[0]:
+    if key not in judge(ctx, [pts], args)[0]:
         return case
     n, rounds = 2, 0
     while len(pts) >= 2 and rounds < 250:
@@ -370,7 +563,7 @@ def shrink(ctx, case, key):
         size = max(1, len(pts) // n)
         cands = [pts[:i] + pts[i + size:] for i in range(0, len(pts), size)]
         cands = [c for c in cands if c][:64]
-        verdicts = judge(ctx, cands)
+        verdicts = judge(ctx, cands, args)
         hit = [c for c, v in zip(cands, verdicts) if key in v]
         if hit:
             pts = min(hit, key=len)
@@ -379,7 +572,7 @@ def shrink(ctx, case, key):
             break
         else:
             n = min(len(pts), n * 2)
-    return {"kind": "compress", "points": pts}
+    return dict({"kind": "compress", "points": pts}, **({"args": args} if args else {}))
 
 
 # ---------------------------------------------------------------- state carried between calls
@@ -416,8 +609,11 @@ def gen_history(rng):
         pts = pts + late
         if rng.random() < 0.3:
             pts += [list(rng.choice(pts)) for _ in range(rng.choice([1, 3]))]
-        if rng.random() < 0.04:
-            pts.insert(rng.randrange(len(pts) + 1), rng.choice([[256, 0, 0], [0, -1, 1], [3, 3, 18], [0, 256, 17]]))
+        if rng.random() < 0.2:      # calls that fail; the object is used on
+            for _ in range(rng.choice([1, 1, 2, 4])):
+                bad = rng.choice([[256, 0, 0], [0, -1, 1], [3, 3, 18], [0, 256, 17], [2 ** 64, 1, 1], [1, 1, -2 ** 31],
+                                  [1, 2 ** 100, 0]])
+                pts.insert(rng.randrange(len(pts) + 1), bad)
     n = len(pts)
     p_read = min(0.6, rng.choice([2, 4, 8, 12]) / (n + 1.0))
     ops = []
@@ -431,24 +627,53 @@ def gen_history(rng):
                 ops.append([])
     if rng.random() < 0.9:
         ops.append([])
-    return {"kind": "history", "x": bx, "y": by, "level": level, "ops": ops}
+    c = {"kind": "history", "x": bx, "y": by, "level": level, "ops": ops}
+    if rng.random() < 0.3:
+        c["opts"] = {"ctor": rng.choice(["pos", "kw", "partial"]), "sub": rng.random() < 0.4,
+                     "ints": rng.choice(INT_KINDS), "conv": rng.choice(["pos", "kw"])}
+    return c
 
 
-def impl_history(bx, by, level, ops):
+def reload_rig(controller=False):
+    """a history starts from freshly executed modules: module-level / class-level / default-argument state left by
+    earlier cases of this process cannot leak in, so a replay (a new process) sees what the run saw"""
+    import importlib
     from rig.machine_control import regions
-    t = regions.RegionCoreTree(bx, by, level)
-    res = []
-    try:
+    importlib.reload(regions)
+    if controller:
+        from rig.machine_control import machine_controller
+        importlib.reload(machine_controller)
+
+
+def on_grid(bx, by, level):
+    sc = 4 ** (4 - level) if 0 <= level <= 3 else 1
+    return bx % sc == 0 and by % sc == 0
+
+
+def impl_history(bx, by, level, ops, opts=None):
+    """-> {"ok": {"results": [...], "tree": ...}}: add_core -> its return value, or "ValueError" when it raised (the
+    caller goes on using the object; for a node that is not on its grid - outside the documented use - the history
+    stops there and the tree is not compared: a child may have been created before the range check of the child
+    failed); read-out -> the list of pairs"""
+    from rig.machine_control import regions
+    opts = opts or {}
+    go_on = on_grid(bx, by, level)
+
+    def run():
+        t = new_tree(regions, bx, by, level, opts.get("ctor", "pos"), opts.get("sub", False), opts.get("ints", "int"))
+        res = []
         for op in ops:
             if op:
-                res.append(bool(t.add_core(op[0], op[1], op[2])))
+                try:
+                    res.append(bool(add_core(t, op[0], op[1], op[2], opts.get("conv", "pos"), opts.get("ints", "int"))))
+                except ValueError:
+                    res.append("ValueError")
+                    if not go_on:
+                        return {"ok": {"results": res, "tree": None}}
             else:
                 res.append([[int(r), int(m)] for (r, m) in t.get_regions_and_coremasks()])
         return {"ok": {"tree": dump_tree(t), "results": res}}
-    except ValueError:
-        return {"err": "ValueError"}
-    except Exception as e:  # noqa
-        return {"err": "Other " + type(e).__name__}
+    return guard(run, len(ops))
 
 
 def in_range(x, y, p):
@@ -456,15 +681,20 @@ def in_range(x, y, p):
 
 
 def prepare_history(c, reqs, idx):
-    c["impl"] = impl_history(c["x"], c["y"], c["level"], c["ops"])
-    reqs.append({"suite": "c12", "op": "history", "x": c["x"], "y": c["y"], "level": c["level"], "ops": c["ops"]})
+    reload_rig()
+    c["impl"] = impl_history(c["x"], c["y"], c["level"], c["ops"], c.get("opts"))
+    ops = c["ops"]
+    if "ok" in c["impl"]:
+        ops = ops[:len(c["impl"]["ok"]["results"])]
+    reqs.append({"suite": "c12", "op": "history", "x": c["x"], "y": c["y"], "level": c["level"], "ops": ops})
     idx.append((c, "model"))
     c["_reads"] = []
-    if c["level"] == 0 and "ok" in c["impl"] and all(in_range(*op) for op in c["ops"] if op):
+    if c["level"] == 0 and c["x"] == 0 and c["y"] == 0 and "ok" in c["impl"]:
         sofar = set()
         for i, (op, res) in enumerate(zip(c["ops"], c["impl"]["ok"]["results"])):
             if op:
-                sofar.add(tuple(op))
+                if in_range(*op):
+                    sofar.add(tuple(op))
             else:
                 tg = [list(t) for t in sorted(sofar)]
                 reqs.append({"suite": "c12", "op": "oracle", "targets": tg, "out": res, "queries": queries({}, tg)})
@@ -475,13 +705,26 @@ def prepare_history(c, reqs, idx):
 def verdict_history(c):
     """(mismatch detail or None, [(key, text)]) - no side effects"""
     mism = None
-    if c["impl"] != c["model"]:
+    same = c["impl"] == c["model"]
+    if not same and "ok" in c["impl"] and "ok" in c["model"] and c["impl"]["ok"]["tree"] is None:
+        same = c["impl"]["ok"]["results"] == c["model"]["ok"]["results"]      # stopped at an error off the grid
+    if not same:
         mism = ("one RegionCoreTree(%d, %d, %d) object, %d calls: results of the calls / final tree differ: impl=%s model=%s"
                 % (c["x"], c["y"], c["level"], len(c["ops"]), str(c["impl"])[:300], str(c["model"])[:300]))
     found = []
-    if c["level"] == 0 and "err" in c["impl"] and all(in_range(*op) for op in c["ops"] if op):
-        found.append(("exception-on-valid-targets", "a call on one RegionCoreTree object raised %s although every "
-                      "added core is in range: calls %s" % (c["impl"]["err"], str(c["ops"])[:300])))
+    root = c["level"] == 0 and c["x"] == 0 and c["y"] == 0
+    if c["impl"].get("err") == "DidNotReturn":
+        found.append(("did-not-return", "a call on one RegionCoreTree object did not return (%s): calls %s"
+                      % (c["impl"].get("where"), str(c["ops"])[:300])))
+    elif root and "err" in c["impl"]:
+        found.append(("exception-on-valid-targets", "a call on one RegionCoreTree object raised %s: calls %s"
+                      % (c["impl"]["err"], str(c["ops"])[:300])))
+    elif root:
+        for i, (op, res) in enumerate(zip(c["ops"], c["impl"]["ok"]["results"])):
+            if op and res == "ValueError" and in_range(*op):
+                found.append(("exception-on-valid-targets", "one RegionCoreTree object, call #%d add_core%r raised "
+                              "ValueError although the core is in range: calls %s" % (i, tuple(op), str(c["ops"])[:300])))
+                break
     for i, tg in c["_reads"]:
         o = c[("read", i)]
         if not o["nodup"]:
@@ -498,7 +741,7 @@ def verdict_history(c):
     return mism, found
 
 
-CALL_OPS = ("new", "call", "discard", "add", "clear", "delchip", "setchip")
+CALL_OPS = ("new", "call", "discard", "add", "clear", "delchip", "setchip", "spoil")
 
 
 def gen_calls(rng):
@@ -508,7 +751,10 @@ def gen_calls(rng):
     ["discard"/"add", name, x, y, p]        cores.discard(p) / cores.add(p) on the chip's own set object,
     ["clear", name, x, y]                   cores.clear(),
     ["delchip", name, x, y]                 del targets[(x, y)],
-    ["setchip", name, x, y, [cores]]        targets[(x, y)] = set(cores) (new chip, or a new set for a known chip)."""
+    ["setchip", name, x, y, [cores]]        targets[(x, y)] = set(cores) (new chip, or a new set for a known chip),
+    ["spoil", j, how]                       edit in place the list returned by the j-th last call (clear / reverse /
+                                            append / pop / setitem).
+    Every list handed back is kept and looked at again after every later call."""
     mirror, steps = {}, []
 
     def new(name):
@@ -550,11 +796,44 @@ def gen_calls(rng):
             d[(x, y)] = set(cs)
             steps.append(["setchip", name, x, y, cs])
 
+    def twin(src, name):
+        """a fresh dictionary equal to `src` in all but one aspect (one core more / less, one chip more / less)"""
+        d = {k: set(v) for k, v in mirror[src].items()}
+        chips = sorted(d)
+        r = rng.random()
+        if chips and r < 0.3:
+            k = rng.choice(chips)
+            d[k] = set(d[k]) ^ {rng.randrange(18)}
+        elif chips and r < 0.55 and len(chips) > 1:
+            del d[rng.choice(chips)]
+        elif chips and r < 0.8:
+            k = rng.choice(chips)
+            nk = (min(255, k[0] + rng.choice([1, 4, 16])), k[1])
+            d.setdefault(nk, set()).update(d[k] or {0})
+        else:
+            d[(rng.randrange(256), rng.randrange(256))] = {rng.randrange(18)}
+        mirror[name] = d
+        steps.append(["new", name, [[x, y, sorted(cs)] for (x, y), cs in d.items()]])
+
     new("a")
+    if rng.random() < 0.25:       # twins, asked for in both orders
+        twin("a", "b")
+        for nm in rng.choice([["a", "b", "a"], ["b", "a", "b"], ["a", "b", "b", "a"]]):
+            steps.append(["call", nm])
+        return {"kind": "calls", "steps": steps}
     steps.append(["call", "a"])
     for _ in range(rng.choice([1, 2, 3, 5])):
         r = rng.random()
-        if r < 0.7:
+        if r < 0.1 and mirror["a"]:
+            # a request that must fail, then the caller repairs its dictionary and asks again
+            x, y = rng.choice(sorted(mirror["a"]))
+            bad = rng.choice([18, -1, 2 ** 32, 255])
+            steps += [["add", "a", x, y, bad], ["call", "a"], ["discard", "a", x, y, bad], ["call", "a"]]
+        elif r < 0.2:
+            # the caller edits the list it was handed back, and asks again
+            steps += [["spoil", rng.randrange(4), rng.choice(["clear", "reverse", "append", "pop", "setitem"])],
+                      ["call", "a"]]
+        elif r < 0.7:
             for _ in range(rng.choice([1, 1, 2, 4, 8])):
                 mutate("a")
             steps.append(["call", "a"])
@@ -571,12 +850,43 @@ def gen_calls(rng):
 
 
 def impl_calls(steps):
-    """interpret the steps on real dictionaries / sets in this process; a step that refers to a dictionary or chip
-    that does not exist is skipped (so every sub-sequence of a sequence is a sequence).  One record per call:
-    the insertion order the implementation iterates, its result, whether the caller's data survived the call."""
-    dicts, calls = {}, []
+    """interpret the steps on real dictionaries / sets in this process; a step that refers to a dictionary, chip or
+    result that does not exist is skipped (so every sub-sequence of a sequence is a sequence).  One record per call:
+    the insertion order the implementation iterates, its result, whether the caller's data survived the call; the
+    list objects handed back are kept: `changed` = a kept list differs later from what it was when returned
+    (apart from the caller's own edits)."""
+    from rig.machine_control import regions
+    dicts, calls, kept, changed = {}, [], [], []
+
+    def recheck(when):
+        for rec in kept:
+            if rec["obj"] is not None and not rec["reported"] and [list(p) for p in rec["obj"]] != rec["snap"]:
+                rec["reported"] = True
+                changed.append({"call": rec["call"], "when": when, "was": rec["snap"][:20],
+                                "now": [list(p) for p in rec["obj"]][:20]})
     for i, st in enumerate(steps):
-        op, name = st[0], st[1]
+        op = st[0]
+        if op == "spoil":
+            live = [rec for rec in kept if rec["obj"] is not None]
+            if st[1] < len(live):
+                rec = live[-1 - st[1]]
+                o = rec["obj"]
+                try:
+                    if st[2] == "clear":
+                        del o[:]
+                    elif st[2] == "reverse":
+                        o.reverse()
+                    elif st[2] == "append":
+                        o.append((0xffff0001, 1))
+                    elif st[2] == "pop" and o:
+                        o.pop()
+                    elif st[2] == "setitem" and o:
+                        o[0] = (o[0][0], 0)
+                except (AttributeError, TypeError):
+                    pass                # not a list: nothing the caller could edit
+                rec["snap"] = [list(p) for p in o]
+            continue
+        name = st[1]
         if op == "new":
             d = {}
             for x, y, cs in st[2]:
@@ -592,10 +902,17 @@ def impl_calls(steps):
             before = [[x, y, sorted(cs)] for (x, y), cs in d.items()]
             ids = [id(cs) for cs in d.values()]
             order = [[x, y, p] for (x, y), cs in d.items() for p in cs]
-            r = impl_compress(d)
+            box = {}
+
+            def run():
+                box["out"] = regions.compress_flood_fill_regions(d)
+                return {"ok": [[int(r), int(m)] for (r, m) in box["out"]]}
+            r = guard(run, len(order))
             after = [[x, y, sorted(cs)] for (x, y), cs in d.items()]
             calls.append({"step": i, "order": order, "impl": r, "targets": before,
                           "unchanged": before == after and ids == [id(cs) for cs in d.values()], "after": after})
+            recheck(len(calls))
+            kept.append({"call": len(calls), "obj": box.get("out"), "snap": r.get("ok"), "reported": False})
         elif op == "setchip":
             d[(st[2], st[3])] = set(st[4])
         elif (st[2], st[3]) not in d:
@@ -608,15 +925,18 @@ def impl_calls(steps):
             d[(st[2], st[3])].clear()
         elif op == "delchip":
             del d[(st[2], st[3])]
-    return calls
+    recheck("end")
+    return calls, changed
 
 
 def prepare_calls(c, reqs, idx):
-    c["_calls"] = impl_calls(c["steps"])
+    reload_rig()
+    c["_calls"], c["_changed"] = impl_calls(c["steps"])
     for k, rec in enumerate(c["_calls"]):
         reqs.append({"suite": "c12", "op": "compress", "targets": rec["order"]})
         idx.append((c, ("model", k)))
-        if "ok" in rec["impl"]:
+        rec["valid"] = all(in_range(*t) for t in rec["order"])
+        if "ok" in rec["impl"] and rec["valid"]:
             tg = sorted(rec["order"])
             reqs.append({"suite": "c12", "op": "oracle", "targets": tg, "out": rec["impl"]["ok"],
                          "queries": queries({}, tg)})
@@ -635,6 +955,11 @@ def verdict_calls(c):
         if not rec["unchanged"]:
             found.append(("targets-changed-by-call", "%s: the call changed the caller's dictionary / core sets: before %s "
                           "after %s" % (where, str(rec["targets"])[:250], str(rec["after"])[:250])))
+        if rec["impl"].get("err") == "DidNotReturn":
+            found.append(("did-not-return", "%s: did not return (%s); %s" % (where, rec["impl"].get("where"), tail)))
+            continue
+        if not rec["valid"]:
+            continue                    # a request that must fail: compared with the model only
         if "ok" not in rec["impl"]:
             found.append(("exception-on-valid-targets", "%s: raised %s on in-range targets; %s"
                           % (where, rec["impl"]["err"], tail)))
@@ -648,6 +973,12 @@ def verdict_calls(c):
                           % (where, (" ((x, y, p, expected, selected by) = %r)" % o["bad"]) if o["bad"] else "", tail)))
         if not o["sorted"]:
             found.append(("call-sequence-not-increasing", "%s: the pairs are not strictly increasing; %s" % (where, tail)))
+    for ch in c["_changed"]:
+        found.append(("result-changed-after-return", "a sequence of compress_flood_fill_regions calls in one process: the "
+                      "list returned by call #%s was %s when it was returned and is %s after call %s, without the caller "
+                      "touching it; whole sequence: %s" % (ch["call"], str(ch["was"])[:200], str(ch["now"])[:200],
+                                                           ch["when"], str(c["steps"])[:400])))
+        break
     return mism, found
 
 
@@ -725,11 +1056,13 @@ def gen_gens(rng):
 def impl_gens(trees, ops):
     """-> per tree the history (adds and, where a generator was opened, a read-out marker), per generator its record"""
     from rig.machine_control import regions
-    objs = [regions.RegionCoreTree(bx, by, lv) for bx, by, lv in trees]
     hist = [[] for _ in trees]          # per tree: [x, y, p] / ["g", g]
     rets = [[] for _ in trees]          # per tree: results of the adds
     gens = {}
-    try:
+
+    def run():
+        objs = [new_tree(regions, bx, by, lv, ["pos", "kw", "partial"][i % 3], sub=(i == 1))
+                for i, (bx, by, lv) in enumerate(trees)]
         for op in ops:
             if op[0] == "add":
                 t = op[1]
@@ -766,17 +1099,15 @@ def impl_gens(trees, ops):
                 rec["out"].append([int(r), int(m)])
                 if n is not None:
                     n -= 1
-    except ValueError:
-        return {"err": "ValueError"}
-    except Exception as e:  # noqa
-        return {"err": "Other " + type(e).__name__}
-    for rec in gens.values():
-        del rec["it"]
-    return {"ok": {"hist": hist, "rets": rets, "gens": {str(g): rec for g, rec in gens.items()},
-                   "trees": [dump_tree(t) for t in objs]}}
+        for rec in gens.values():
+            rec.pop("it", None)
+        return {"ok": {"hist": hist, "rets": rets, "gens": {str(g): rec for g, rec in gens.items()},
+                       "trees": [dump_tree(t) for t in objs]}}
+    return guard(run, len(ops))
 
 
 def prepare_gens(c, reqs, idx):
+    reload_rig()
     c["impl"] = impl_gens(c["trees"], c["ops"])
     c["_judged"] = []
     if "ok" not in c["impl"]:
@@ -802,6 +1133,9 @@ def prepare_gens(c, reqs, idx):
 
 def verdict_gens(c):
     mism, found = None, []
+    if c["impl"].get("err") == "DidNotReturn":
+        return "did not return", [("did-not-return", "a call on the trees %s did not return (%s): calls %s"
+                                   % (c["trees"], c["impl"].get("where"), str(c["ops"])[:300]))]
     if "ok" not in c["impl"]:
         if all(tr == [0, 0, 0] for tr in c["trees"]) and all(in_range(*op[2:]) for op in c["ops"] if op[0] == "add"):
             found.append(("exception-on-valid-targets", "a call raised %s although every added core is in range: trees %s "
@@ -924,8 +1258,13 @@ def gen_fills(rng):
             t = [list(e) for e in rng.choice(sorted(last.values()))]       # another binary, the same targets
         last[name] = t
         r = rng.random()
-        if r < 0.5:
-            steps.append(["ff", name, t, app_id, rng.random() < 0.6])
+        if r < 0.06:
+            # a binary that cannot be opened: the call fails after the regions were worked out, the controller is
+            # used on
+            steps.append(["ff", 9, t, app_id, True])
+        elif r < 0.5:
+            # a last `True`: the caller passes the SAME dictionary object as last time for this binary, edited in place
+            steps.append(["ff", name, t, app_id, rng.random() < 0.6] + ([True] if rng.random() < 0.4 else []))
         elif r < 0.65:
             other = (name + 1) % 3
             t2 = gen_targets_on(rng, tch)
@@ -937,22 +1276,27 @@ def gen_fills(rng):
                 last[other] = t2
             steps.append(["ffmap", pairs, app_id, rng.random() < 0.6])
         else:
-            steps.append(["load", [[name, t]], app_id, rng.choice([1, 2, 3]), rng.random() < 0.5, rng.random() < 0.5])
+            steps.append(["load", [[name, t]], app_id, rng.choice([1, 2, 3]), rng.random() < 0.5, rng.random() < 0.5]
+                         + ([True] if rng.random() < 0.3 else []))
     missed = []
     for i in range(rng.choice([0, 0, 2, 4, 8])):
         missed.append([list(c) for c in tch if rng.random() < rng.choice([0.0, 0.2, 0.5])])
-    return {"kind": "fills", "chips": chips, "images": images, "missed": missed, "steps": steps}
+    cfg = {"buf": rng.choice([64, 128, 256, 256]), "sver": rng.choice(["semver", "semver", "legacy"]),
+           "sdram_sys": rng.choice([0x60000000, 0x60240000, 0x67800000]),
+           "vcpu_base": rng.choice([0xe5007000, 0xe5004000])}
+    return {"kind": "fills", "chips": chips, "images": images, "missed": missed, "steps": steps, "cfg": cfg}
 
 
 def impl_fills(c):
     """-> {"calls": [{"name", "targets", "order"}...] one per (binary, targets) of every flood_fill_aplx invocation
     (also those made by load_application), "fills": [[[region, core mask], ...], ...] the FFCS packets between
-    successive flood-fill start packets, "errors": [...]}"""
+    successive flood-fill start packets, "errors": [...], "faults": n}"""
     import tempfile
     from harness import c09 as h9
     from harness import simnet, simmachine
     from rig.machine_control import machine_controller as mcm
     k = h9.load_consts()
+    cfg = c.get("cfg") or {}
     if _FILLDIR[0] is None:
         _FILLDIR[0] = tempfile.mkdtemp(prefix="c12-")
     paths = {}
@@ -960,17 +1304,30 @@ def impl_fills(c):
         paths[n] = os.path.join(_FILLDIR[0], "app%d_%d.aplx" % (os.getpid(), n))
         with open(paths[n], "wb") as f:
             f.write(bytes(im))
+    paths[9] = os.path.join(_FILLDIR[0], "no-such-binary.aplx")
     names = {v: n for n, v in paths.items()}
-    machine = h9.LoadMachine(c["chips"], 256, FILL_SDRAM_SYS, FILL_VCPU_BASE, c["missed"], [], k)
+    machine = h9.LoadMachine(c["chips"], cfg.get("buf", 256), cfg.get("sdram_sys", FILL_SDRAM_SYS),
+                             cfg.get("vcpu_base", FILL_VCPU_BASE), c["missed"], [], k, sver=cfg.get("sver", "semver"))
     net = simnet.Net(machine.handle, lambda i, d: None)
-    calls, errors, cur, inv = [], [], [0], [0]
+    calls, errors, cur, inv, faults = [], [], [0], [0], [0]
+    keep = {}
 
-    def tdict(t):
-        d = {}
+    def tdict(name, t, reuse):
+        """a fresh dictionary of fresh sets, or (reuse) the object passed for this binary last time, edited in place"""
+        d = keep.get(name) if reuse else None
+        if d is None:
+            d = {}
+        want = {(x, y): cs for x, y, cs in t}
+        for key in [key for key in d if key not in want]:
+            del d[key]
         for x, y, cs in t:
-            d[(x, y)] = set()
+            if (x, y) in d:
+                d[(x, y)].clear()
+            else:
+                d[(x, y)] = set()
             for p in cs:
                 d[(x, y)].add(p)
+        keep[name] = d
         return d
 
     with simnet.installed(net):
@@ -981,24 +1338,38 @@ def impl_fills(c):
             amap = {args[0]: args[1]} if len(args) == 2 else args[0]
             inv[0] += 1
             for path, targets in amap.items():
-                calls.append({"name": names.get(path), "step": cur[0], "inv": inv[0], "targets": [[x, y, sorted(cs)] for (x, y), cs in targets.items()],
+                calls.append({"name": names.get(path), "step": cur[0], "inv": inv[0],
+                              "targets": [[x, y, sorted(cs)] for (x, y), cs in targets.items()],
                               "order": [[x, y, p] for (x, y), cs in targets.items() for p in cs]})
             return real(*args, **kw)
         mc.flood_fill_aplx = recording
         for i, st in enumerate(c["steps"]):
             cur[0] = i
-            try:
+            n_calls, n_fills = len(calls), machine.fills
+
+            def step():
                 if st[0] == "ff":
-                    mc.flood_fill_aplx(paths[st[1]], tdict(st[2]), app_id=st[3], wait=st[4])
+                    mc.flood_fill_aplx(paths[st[1]], tdict(st[1], st[2], len(st) > 5 and st[5]), app_id=st[3], wait=st[4])
                 elif st[0] == "ffmap":
-                    mc.flood_fill_aplx({paths[n]: tdict(t) for n, t in st[1]}, app_id=st[2], wait=st[3])
+                    mc.flood_fill_aplx({paths[n]: tdict(n, t, False) for n, t in st[1]}, app_id=st[2], wait=st[3])
                 elif st[0] == "load":
-                    mc.load_application({paths[n]: tdict(t) for n, t in st[1]}, app_id=st[2], n_tries=st[3],
-                                        wait=st[4], app_start_delay=0.0, use_count=st[5])
-            except mcm.SpiNNakerLoadingError:
-                pass                    # some chips missed every attempt: the documented outcome
-            except Exception as e:  # noqa
-                errors.append([i, "%s %s" % (type(e).__name__, str(e)[:100])])
+                    try:
+                        mc.load_application({paths[n]: tdict(n, t, len(st) > 6 and st[6]) for n, t in st[1]}, app_id=st[2],
+                                            n_tries=st[3], wait=st[4], app_start_delay=0.0, use_count=st[5])
+                    except mcm.SpiNNakerLoadingError:
+                        pass                    # some chips missed every attempt: the documented outcome
+                return {"ok": True}
+            try:
+                r = guard(step, 20000)
+            except KeyError:
+                r = {"err": "Other KeyError"}
+            if "err" in r:
+                # a flood fill that failed before its start packet went out leaves no fill to judge
+                del calls[n_calls + (machine.fills - n_fills):]
+                if st[0] == "ff" and st[1] == 9 and r["err"].startswith("Other") and "DidNotReturn" not in r["err"]:
+                    faults[0] += 1              # the binary that does not exist: IOError / OSError expected
+                    continue
+                errors.append([i, r["err"] + (" " + r.get("where", "") if r.get("where") else "")])
                 break
     fills = []
     for raw, _ in machine.log:
@@ -1010,10 +1381,11 @@ def impl_fills(c):
         elif op == k["nnFfcs"] and fills:
             # documented layout of the core-select packet: arg1 = command << 24 | core mask, arg2 = region
             fills[-1].append([raw["arg2"], raw["arg1"] & 0xffffff])
-    return {"calls": calls, "fills": fills, "errors": errors}
+    return {"calls": calls, "fills": fills, "errors": errors, "faults": faults[0]}
 
 
 def prepare_fills(c, reqs, idx):
+    reload_rig(controller=True)
     c["impl"] = impl_fills(c)
     for i, (call, pairs) in enumerate(zip(c["impl"]["calls"], c["impl"]["fills"])):
         reqs.append({"suite": "c12", "op": "compress", "targets": call["order"]})
@@ -1028,6 +1400,10 @@ def verdict_fills(c):
     r = c["impl"]
     if r["errors"]:
         mism = "step %d raised %s" % tuple(r["errors"][0])
+        if "DidNotReturn" in r["errors"][0][1]:
+            found.append(("did-not-return", "step %d of a sequence on one MachineController did not return (%s); whole "
+                          "sequence: chips %s steps %s" % (r["errors"][0][0], r["errors"][0][1], str(c["chips"])[:120],
+                                                           str(c["steps"])[:400])))
     if len(r["calls"]) != len(r["fills"]) and not r["errors"]:
         mism = mism or "%d flood fills requested, %d flood-fill start packets seen" % (len(r["calls"]), len(r["fills"]))
     for i, (call, pairs) in enumerate(zip(r["calls"], r["fills"])):
@@ -1060,7 +1436,7 @@ SEQ = {"history": ("ops", prepare_history, verdict_history, "c12.history"),
 def shrink_seq(ctx, case, key):
     """delta debugging on the list of calls of a history / call sequence, keeping the same finding key"""
     field, _, verdict, _ = SEQ[case["kind"]]
-    base = {k: v for k, v in case.items() if k in ("kind", "x", "y", "level", "trees", "chips", "images", "missed")}
+    base = {k: v for k, v in case.items() if k in ("kind", "x", "y", "level", "trees", "chips", "images", "missed", "opts", "cfg")}
 
     def keys_of(seqs):
         cands = [dict(base, **{field: q}) for q in seqs]
@@ -1117,6 +1493,13 @@ def finish_seq(ctx, c, desc):
         between = len(reads) >= 2 and any(reads[0] < a < reads[-1] for a in adds)
         ctx.tag("history_level%d_%s" % (c["level"], "err" if "err" in c["impl"] else
                                         "add_between_reads" if between else "other"))
+        if "ok" in c["impl"] and "ValueError" in c["impl"]["ok"]["results"]:
+            r = c["impl"]["ok"]["results"]
+            ctx.tag("history_used_on_after_failed_call" if r[-1] != "ValueError" or r.count("ValueError") > 1
+                    else "history_ends_with_failed_call")
+        for k, v in sorted((c.get("opts") or {}).items()):
+            if v not in ("pos", "int", False):
+                ctx.tag("history_%s_%s" % (k, v))
         ctx.tag("history_reads_%s" % ("0" if not reads else "1" if len(reads) == 1 else "2-5" if len(reads) <= 5
                                       else "6+"))
         if "ok" in c["impl"] and any(r is True for r in c["impl"]["ok"]["results"]):
@@ -1156,6 +1539,12 @@ def finish_seq(ctx, c, desc):
         ctx.tag("fills_%s" % ("0-1" if len(r["fills"]) <= 1 else "2-3" if len(r["fills"]) <= 3 else "4+"))
         for st in c["steps"]:
             ctx.tag("fills_step_" + st[0])
+            if (st[0] == "ff" and len(st) > 5 and st[5]) or (st[0] == "load" and len(st) > 6 and st[6]):
+                ctx.tag("fills_same_dictionary_object_edited_in_place")
+        if r.get("faults"):
+            ctx.tag("fills_used_on_after_failed_call")
+        cfg = c.get("cfg") or {}
+        ctx.tag("fills_cfg_buf%s_%s" % (cfg.get("buf", 256), cfg.get("sver", "semver")))
         seen, again = {}, False
         for call in r["calls"]:
             key = (call["name"], tuple(sorted((x, y) for x, y, _ in call["targets"])))
@@ -1185,11 +1574,18 @@ def finish_seq(ctx, c, desc):
                 ctx.tag("calls_inplace_" + st[0])
             elif st[0] in ("delchip", "setchip"):
                 ctx.tag("calls_" + st[0])
+            elif st[0] == "spoil":
+                ctx.tag("calls_returned_list_edited_" + st[2])
         ctx.tag("calls_%s" % ("1" if len(calls) <= 1 else "2-3" if len(calls) <= 3 else "4+"))
         if len(set(names)) > 1:
             ctx.tag("calls_two_dictionaries")
         if inplace:
             ctx.tag("calls_again_after_inplace_change")
+        if any(not r["valid"] for r in calls):
+            ctx.tag("calls_failed_request_then_repaired" if calls and calls[-1]["valid"] else "calls_failed_request")
+        news = [st for st in c["steps"] if st[0] == "new"]
+        if len(news) == 2 and sum(1 for st in c["steps"] if st[0] == "call") >= 3 and len(c["steps"]) <= 6:
+            ctx.tag("calls_twins_both_orders")
         ctx.traces += max(0, len(calls) - 1)
         ctx.case(desc, inplace)
 
@@ -1215,10 +1611,10 @@ def prepare(cases):
     reqs, idx = [], []
     for c in cases:
         if c["kind"] == "region":
-            c["impl"] = impl_region(c["x"], c["y"], c["level"])
+            c["impl"] = impl_region(c["x"], c["y"], c["level"], c.get("conv", "pos"), c.get("ints", "int"))
             reqs.append({"suite": "c12", "op": "region", "x": c["x"], "y": c["y"], "level": c["level"]})
             idx.append((c, "model"))
-            if "ok" in c["impl"] and c["level"] <= 3:
+            if "ok" in c["impl"] and c["level"] <= 3 and c["x"] < 256 and c["y"] < 256:
                 reqs.append({"suite": "c12", "op": "chips", "r": c["impl"]["ok"]})
                 idx.append((c, "chips"))
             continue
@@ -1226,25 +1622,29 @@ def prepare(cases):
             SEQ[c["kind"]][1](c, reqs, idx)
             continue
         if c["kind"] == "subtree":
-            c["impl"] = impl_subtree(c["x"], c["y"], c["level"], c["points"])
+            c["impl"] = impl_subtree(c["x"], c["y"], c["level"], c["points"], c.get("opts"))
             reqs.append({"suite": "c12", "op": "subtree", "x": c["x"], "y": c["y"], "level": c["level"],
                          "targets": c["points"]})
             idx.append((c, "model"))
             continue
         targets = build_targets(c)
-        order = [[x, y, p] for (x, y), cs in targets.items() for p in cs]
+        if c.get("args"):
+            targets, order = dress(targets, c["args"])
+        else:
+            order = [[x, y, p] for (x, y), cs in targets.items() for p in cs]
         c["_n"] = len(order)
         c["_valid"] = all(0 <= x < 256 and 0 <= y < 256 and 0 <= p < 18 for x, y, p in order)
-        c["impl"] = impl_compress(targets)
+        c["impl"] = impl_compress(targets, c.get("args"), len(order))
         reqs.append({"suite": "c12", "op": "compress", "targets": order})
         idx.append((c, "model"))
         if len(order) <= TREE_LIMIT:
-            c["impl_tree"] = impl_tree(order)
+            c["impl_tree"] = impl_tree(order, c.get("args"))
             reqs.append({"suite": "c12", "op": "tree", "targets": order})
             idx.append((c, "model_tree"))
         if c["_valid"] and "ok" in c["impl"]:
-            reqs.append({"suite": "c12", "op": "oracle", "targets": sorted(order), "out": c["impl"]["ok"],
-                         "queries": queries(c, order)})
+            tg = sorted({tuple(t) for t in order})          # a list / tuple of cores may repeat a core
+            reqs.append({"suite": "c12", "op": "oracle", "targets": [list(t) for t in tg], "out": c["impl"]["ok"],
+                         "queries": queries(c, [list(t) for t in tg])})
             idx.append((c, "oracle"))
     return reqs, idx
 
@@ -1255,7 +1655,8 @@ def finish(ctx, cases, idx, replies):
         c[what] = r
     for c in cases:
         desc = {k: v for k, v in c.items() if k in ("kind", "shapes", "order", "points", "x", "y", "level", "ops",
-                                                    "steps", "trees", "chips", "images", "missed")}
+                                                    "steps", "trees", "chips", "images", "missed", "args", "opts",
+                                                    "conv", "ints", "cfg")}
         ctx.traces += 1
         if c["kind"] in SEQ:
             finish_seq(ctx, c, desc)
@@ -1263,7 +1664,14 @@ def finish(ctx, cases, idx, replies):
         if c["kind"] == "region":
             if c["impl"] != c["model"]:
                 ctx.mismatch("c12.region", "impl=%r model=%r" % (c["impl"], c["model"]), desc)
-            ctx.tag("region_level%d_%s" % (c["level"], "ok" if "ok" in c["impl"] else "err"))
+            ctx.tag("region_level%s_%s" % (c["level"] if c["level"] <= 4 else "big", "ok" if "ok" in c["impl"] else "err"))
+            if c["x"] >= 256 or c["y"] >= 256:
+                ctx.tag("region_coordinate_beyond_255")
+            if c.get("conv", "pos") != "pos" or c.get("ints", "int") != "int":
+                ctx.tag("region_call_%s_%s" % (c.get("conv", "pos"), c.get("ints", "int")))
+            if c["impl"].get("err") == "DidNotReturn" and c["level"] <= 3:
+                ctx.violation("did-not-return", "get_region_for_chip(%d, %d, %d) did not return: %s"
+                              % (c["x"], c["y"], c["level"], c["impl"].get("where")), desc)
             if "chips" in c:
                 chips = c["chips"]
                 if c["level"] == 3 and chips != [[c["x"], c["y"]]]:
@@ -1284,6 +1692,9 @@ def finish(ctx, cases, idx, replies):
             full = "ok" in c["impl"] and any(c["impl"]["ok"]["returns"])
             ctx.tag("subtree_level%d_%s" % (c["level"], "err" if "err" in c["impl"] else
                                             "reports_full" if full else "partial"))
+            for k, v in sorted((c.get("opts") or {}).items()):
+                if v not in ("pos", "int", False):
+                    ctx.tag("subtree_%s_%s" % (k, v))
             ctx.case(desc, full)
             continue
         if c["impl"] != c["model"]:
@@ -1293,12 +1704,19 @@ def finish(ctx, cases, idx, replies):
                          % (str(c["impl_tree"])[:300], str(c["model_tree"])[:300]), desc)
             ctx.traces += 1
         nontriv = False
+        for k, v in sorted((c.get("args") or {}).items()):
+            ctx.tag("arg_%s_%s" % (k, v))
         if not c["_valid"]:
             ctx.tag("malformed_" + c["impl"].get("err", "accepted"))
         elif "ok" not in c["impl"]:
             ctx.tag("valid_raised")
-            ctx.violation("exception-on-valid-targets",
-                          "compress_flood_fill_regions raised %s on an in-range target set" % c["impl"]["err"], desc)
+            if c["impl"]["err"] == "DidNotReturn":
+                ctx.violation("did-not-return", "compress_flood_fill_regions did not return on an in-range target set "
+                              "of %d cores: %s" % (c["_n"], c["impl"].get("where")), desc)
+            else:
+                ctx.violation("exception-on-valid-targets",
+                              "compress_flood_fill_regions raised %s on an in-range target set%s"
+                              % (c["impl"]["err"], " (argument kinds %s)" % c["args"] if c.get("args") else ""), desc)
         else:
             out = c["impl"]["ok"]
             levels = sorted({(r >> 16) & 3 for r, _ in out})
@@ -1329,9 +1747,11 @@ def finish(ctx, cases, idx, replies):
                     ctx.extra["_shrunk"].add(key)
                     small = shrink(ctx, desc, key)
                 st = build_targets(small)
-                ctx.violation(key, "%s: targets %s -> output %s" % (
+                passed = dress(st, small["args"])[0] if small.get("args") else st
+                ctx.violation(key, "%s: targets %s%s -> output %s" % (
                     what, str({k: sorted(v) for k, v in st.items()})[:300],
-                    str(impl_compress(st))[:300]), small)
+                    " passed as %s" % small["args"] if small.get("args") else "",
+                    str(impl_compress(passed, small.get("args")))[:300]), small)
         ctx.case(desc, nontriv)
 
 
@@ -1343,7 +1763,17 @@ def region_cases(ctx, n):
         x = rng.choice(edge) if rng.random() < 0.4 else rng.randrange(256)
         y = rng.choice(edge) if rng.random() < 0.4 else rng.randrange(256)
         lv = 3 if rng.random() < 0.5 else rng.choice([0, 1, 2, 3, 4])
-        cs.append({"kind": "region", "x": x, "y": y, "level": lv})
+        c = {"kind": "region", "x": x, "y": y, "level": lv}
+        r = rng.random()
+        if r < 0.04:            # beyond the machine: the function has no range check, compared with the model only
+            c[rng.choice(["x", "y"])] = rng.choice(BIG + [256, 257, 65535, 65536])
+        elif r < 0.06:
+            c["level"] = rng.choice(BIG + [5, 17])
+        if rng.random() < 0.5:
+            c["conv"] = rng.choice(["default", "kw", "allkw"])
+        if rng.random() < 0.3:
+            c["ints"] = rng.choice(INT_KINDS)
+        cs.append(c)
     return cs
 
 
@@ -1389,10 +1819,27 @@ def run(ctx):
     cases += [gen_calls(rng) for _ in range(ctx.scale(250, 3000) * (4 if ctx.extended else 1))]
     cases += [gen_gens(rng) for _ in range(ctx.scale(250, 3000) * (4 if ctx.extended else 1))]
     cases += [gen_fills(rng) for _ in range(ctx.scale(200, 2500) * (4 if ctx.extended else 1))]
-    if ctx.quick:
-        cases += region_cases(ctx, nreg)
-    else:
-        cases += [{"kind": "region", "x": x, "y": y, "level": 3} for x in range(256) for y in range(256)]
+    # far beyond the usual size (a handful): every second chip of a large window with two core sets (the longest
+    # lists: one word per 4 x 4 block and core set), the whole machine with two cores, a long history
+    scale = [{"kind": "compress", "shapes": [["checker", 64, 128, 64, 64, [3], [3, 9]]], "order": 3}]
+    if not ctx.quick:
+        scale += [{"kind": "compress", "shapes": [["checker", 0, 0, 256, 256, [0, 17], [5]]], "order": 4},
+                  {"kind": "compress", "shapes": [["rect", 0, 0, 256, 256, [2, 16]]], "order": 5,
+                   "args": {"ints": "int", "cores": "tuple", "dict": "ordered", "key": "namedtuple", "conv": "kw"}},
+                  {"kind": "compress", "shapes": [["checker", 0, 0, 256, 256, list(range(18)), []]], "order": 6}]
+    pts = [[x, y, 7] for x in range(64, 128) for y in range(192, 256)]
+    rng.shuffle(pts)
+    ops = []
+    for i, q in enumerate(pts if not ctx.quick else pts[:1500]):
+        ops.append(q)
+        if i % 97 == 0 or i >= len(pts) - 3:
+            ops.append([])
+    scale.append({"kind": "history", "x": 0, "y": 0, "level": 0, "ops": ops})
+    cases += scale
+    cases += region_cases(ctx, ctx.scale(nreg, 4000))
+    if not ctx.quick:
+        cases += [{"kind": "region", "x": x, "y": y, "level": 3, "conv": ["pos", "default", "kw", "allkw"][(x + y) % 4]}
+                  for x in range(256) for y in range(256)]
         cases += [{"kind": "region", "x": x, "y": y, "level": l} for x in range(0, 256, 3) for y in range(0, 256, 5)
                   for l in (0, 1, 2, 4)]
         cases.append({"kind": "compress", "shapes": [["rect", 0, 0, 256, 256, [1]], ["hole", 255, 255, [1]]], "order": 2})
@@ -1421,8 +1868,8 @@ def replay(ctx, payload):
     ctx.extra["rule"] = RULE
     ctx.extra["_shrunk"] = {"not-exact", "not-increasing", "history-read-not-exact", "call-sequence-not-exact",
                             "call-sequence-not-increasing", "targets-changed-by-call", "lazy-read-not-exact",
-                            "ffcs-not-exact", "ffcs-not-increasing",
-                            "exception-on-valid-targets"}   # replay the case (the whole history) as recorded
+                            "ffcs-not-exact", "ffcs-not-increasing", "did-not-return",
+                            "result-changed-after-return", "exception-on-valid-targets"}   # replay the case (the whole history) as recorded
     eval_cases(ctx, [payload["case"]])
     ctx.extra.pop("_shrunk", None)
 THEOREMS += ['gen_region_tree_init']   # translator tie, second round (Props/C12Gen.lean)
